@@ -126,6 +126,10 @@ def respond (line : String) : String :=
     match y.toNat? with
     | some y => "ok " ++ hex6 (Format.fmtTaxYear y).toList
     | none => "bad-request"
+  | "validate" :: txs =>
+    match parseAll parseTx? (txs.filter (· ≠ "")) with
+    | none => "bad-request"
+    | some l => s!"ok {(validateErrors l).length}"
   | "spec" :: txs =>
     match parseAll parseTx? (txs.filter (· ≠ "")) with
     | none => "bad-request"
